@@ -47,6 +47,25 @@ def stub_class(position, rank):
     return type('Stub_p%d_r%d' % (position, rank), (StubBase,), {'RANK': rank, 'POSITION': position - 1, '__module__': __name__})
 
 
+class HistStub(StubBase):
+    """A candidate whose outcome depends on the data set: RANKS[0] on data centred near 0, RANKS[1] on data centred near 100."""
+    RANKS = (1, 1)
+
+    def _fit(self, X):
+        self._rank = self.RANKS[0] if abs(float(np.mean(X))) < 50 else self.RANKS[1]
+        if self._rank == 0:
+            raise ERRORS[self.POSITION % len(ERRORS)]('this candidate cannot be fitted to these data')
+        self._params = {'loc': float(np.mean(X)), 'scale': float(np.std(X))}
+
+    def cumulative_distribution(self, X):
+        self.check_fit()
+        return np.clip(norm.cdf(X, **self._params) + 0.15 * (self._rank - 1), 0.0, 1.0)
+
+
+def hist_class(position, r1, r2):
+    return type('Hist_p%d_r%d%d' % (position, r1, r2), (HistStub,), {'RANKS': (r1, r2), 'POSITION': position - 1, '__module__': __name__})
+
+
 class PickyGaussian(GaussianUnivariate):
     """A user distribution that raises in fit for columns whose values are shifted beyond 500; a shift of k * 1000 selects the
     k-th exception type of ERRORS."""
